@@ -1,7 +1,6 @@
 (* The compiled program computes the clause-level reference semantics:
      query n (compile_program P) name args st = solveA n P name args st
-   for every program without a cut in an opaque position (the recorded finding KF-C06-1),
-   every call depth n, every predicate name, argument list and state. *)
+   for every program (a cut inside a condition or under \+ is local to it), every call depth n, every predicate name, argument list and state. *)
 From Coq Require Import String.
 From Coq Require Import List Arith Bool ZArith NArith Lia.
 Import ListNotations.
@@ -78,9 +77,9 @@ Definition computes (R : cfg -> res cfg) (code : list stmt) : Prop :=
                (forall l, snd (R c) <> FExit l).
 
 Lemma computes_body n b cnt code cnt' :
-  comp n b cnt = Some (code, cnt') -> nomark b = true -> noc b = true -> computes (sem I b) code.
+  comp n b cnt = Some (code, cnt') -> nomark b = true -> computes (sem I b) code.
 Proof.
-  intros H M N. destruct (@control_correct cfg I J assign HJ n b cnt code cnt' H M N) as [NA O].
+  intros H M. destruct (@control_correct cfg I J assign HJ n b cnt code cnt' H M) as [NA O].
   split; [exact NA|]. exact O.
 Qed.
 
@@ -174,7 +173,8 @@ Proof.
     rewrite IH. reflexivity.
 Qed.
 
-Definition good_clause (c : clause) : Prop := nomark (c_body c) = true /\ noc (c_body c) = true.
+(* a clause that can come from source text: no $CUTIF marker in its body *)
+Definition good_clause (c : clause) : Prop := nomark (c_body c) = true.
 
 Lemma clause_code c cnt code cnt' : compile_clause c cnt = Some (code, cnt') ->
   exists bcode, comp (fuel_body (c_body c)) (c_body c) cnt = Some (bcode, cnt') /\
@@ -198,9 +198,9 @@ Lemma clause_ok c cnt code cnt' rest cf f :
       end /\
     (snd R = FNorm -> doBreak f' = false) /\ (forall l, snd R <> FExit l).
 Proof.
-  intros HC [M N] Hf cf1 R.
+  intros HC M Hf cf1 R.
   destruct (clause_code _ _ _ _ HC) as [bcode [HB ->]].
-  pose proof (computes_head (clause_pos c) 0 (c_args c) _ _ (computes_body _ _ _ _ _ HB M N)) as [NA H].
+  pose proof (computes_head (clause_pos c) 0 (c_args c) _ _ (computes_body _ _ _ _ _ HB M)) as [NA H].
   destruct cf as [r s].
   rewrite <- !app_assoc, exec_aliases, exec_declares.
   match goal with |- context [IRSem.exec_list _ _ (arg_unifications _ _ _ _ ++ _) ?X f] => change X with cf1 end.
